@@ -226,5 +226,5 @@ MANIFEST = {
     "level": "Static structural decision that every protected range is the range the format defines and that the same keys/bytes are used on both sides: slice windows, chaining, "
              "ordering and key flow are extracted from the AST and compared with the format's constants. Cryptographic values are not computed.",
     "note": "Trusted: crypto wrappers (C09), signature provider (C08). Not decided: signature validity, certificate chain validation.",
-    "technique": "static analysis: slice-window and ordering rules, twin cross-checks, constant folding, construction cross-check of root-key hashing",
+    "technique": "static analysis: slice-window and ordering rules, twin cross-checks, constant folding, construction cross-check of root-key hashing, symbolic-path decision tables (encryption twin), numeric windows, byte-layout normal forms",
 }
